@@ -3,8 +3,8 @@
    start <base> <stop|->             a new task calls into the manager (parks at its (stop+1)-th suspension point)
    resume <t> <stop|->               the t-th parked task continues
    base: enter | exit | reset | locate:<f|r><n> | connect:<path>:<fr01> | aconnect:<f|r><n>:<path>:<fr01> | ev:<EVENT>
-         | pingmiss:<01> | rferr:<01> | wcerr:<01> | info:<i01><n01>        path: '-' or EVENT|SET|RAISE joined by ','
-   answer: D=<event>,<state>,<facadeNone01>,<sensor text|->;...|S=<state> f<01> s<01> c<01> d<01> n<01> r<01> h<01> t=<text|->|O=<outcome>|P=<pool size> -/
+         | pingmiss:<01> | rferr:<01> | wcerr:<01> | info:<i01><n01>        path: '-' or EVENT|SET|RAISE|OPEN|USE joined by ','
+   answer: D=<event>,<state>,<facadeNone01>,<sensor text|->;...|S=<state> f<01> s<01> c<01> p<01> d<01> n<01> r<01> h<01> t=<text|->|O=<outcome>|P=<pool size> -/
 import GeckoModel.Generated.LifecycleTable
 import GeckoModel.Model.Lifecycle
 open GeckoModel.Lifecycle
@@ -22,13 +22,14 @@ def showO : Outcome → String
 
 def showS (s : MState) (ds : List Delivered) : String :=
   let m := s.m
-  s!"D={";".intercalate (ds.map showD)}|S={m.state.name} f{b01 m.facade} s{b01 m.spa} c{b01 m.spaConn} d{b01 m.desc} " ++
+  s!"D={";".intercalate (ds.map showD)}|S={m.state.name} f{b01 m.facade} s{b01 m.spa} c{b01 m.spaConn} p{b01 m.proto} d{b01 m.desc} " ++
   s!"n{b01 m.sensor} r{b01 m.radio} h{b01 m.chan} t={txt m.sensor m.status}|O={showO s.last}|P={s.pool.length}"
 
 def parseEvent (s : String) : Option Event := Event.all.find? (·.name == s)
 
 def parseStep (s : String) : Option CStep :=
-  if s == "SET" then some .setConnected else if s == "RAISE" then some .raise_ else (parseEvent s).map .ev
+  if s == "SET" then some .setConnected else if s == "RAISE" then some .raise_
+  else if s == "OPEN" then some .openProtocol else if s == "USE" then some .useProtocol else (parseEvent s).map .ev
 
 def parsePath (s : String) : Option (List CStep) :=
   if s == "-" then some [] else (s.splitOn ",").mapM parseStep
